@@ -559,6 +559,8 @@ class Gen:
         if r.random() < 0.15:
             if self.in_func is not None:
                 # the returned expression may raise or call: control must still reach the nearest handler / the callee must run normally
+                if r.random() < 0.2:
+                    return ("return", None)      # bare return: the call yields null
                 return ("return", self.raising_int(sc) if r.random() < 0.4 else self.expr_of(self.in_func["ret"], sc))
             if f != "functions":
                 fs = self.callable_funcs(sc, "int")
